@@ -48,6 +48,7 @@ MANIFEST = {
 NT = {'quick': 6, 'thorough': 40}
 NG = {'quick': 12, 'thorough': 60}
 NTRAJ = {'quick': 10, 'thorough': 70}
+NMULTI = {'quick': 5, 'thorough': 30}
 
 
 def plan(tier, seed):
@@ -56,6 +57,9 @@ def plan(tier, seed):
     Ts = np.sort(rng.uniform(600, 850, NT[tier]))
     for i, T in enumerate(Ts):
         cases.append({'kind': 'binary', 'T': float(T), 'ng': NG[tier], 'weight': 5e4})
+    for i in range(NMULTI[tier]):
+        cases.append({'kind': 'multiT', 'pattern': ['decreasing', 'cycle', 'grid', 'random', 'increasing'][i % 5], 'n': 5 + i % 4,
+                      'weight': 5e4})
     for i in range(NTRAJ[tier]):
         r = core.case_rng(seed, PROPERTY, 100 + i)
         system = ['alzr', 'nialcr', 'almgsi', 'nialcr', 'alzr'][i % 5]
@@ -91,6 +95,8 @@ def _df(th, x, T):
 def run_case(case, R):
     if case['kind'] == 'trajectory':
         return _trajectory(case, R)
+    if case['kind'] == 'multiT':
+        return _multi_temperature(case, R)
     T = case['T']
     th = _therm('tangent')
     rng = core.case_rng(case['seed'], PROPERTY, case['idx'], 3)
@@ -145,6 +151,55 @@ def run_case(case, R):
             R.check('c12.methods_value', bool(np.all(np.abs(dm - dft) <= 2.0)), dict(mech, method=method), T=T, x=xgrid, tangent=dft, other=dm)
     R.info.update({'T': T, 'stable_g': int(np.sum(stable)), 'solvus': x0})
     R.set_nontrivial(int(np.sum(stable)) >= 3)
+
+
+def _multi_temperature(case, R):
+    """The first clause for the documented array form (T and g arrays of equal length, one condition per index): each
+    returned composition belongs to ITS temperature. Added after seeded change C12-c (conditions grouped by temperature
+    under an ordering assumption)."""
+    th = _therm('tangent')
+    rng = core.case_rng(case['seed'], PROPERTY, case['idx'], 5)
+    n = case['n']
+    pat = case['pattern']
+    if pat == 'grid':
+        Tu = np.sort(rng.uniform(620, 840, 3))
+        gu = np.sort(np.exp(rng.uniform(np.log(20.0), np.log(4e3), 3)))
+        T = np.tile(Tu, len(gu))
+        g = np.repeat(gu, len(Tu))
+    else:
+        T = rng.uniform(620, 840, n)
+        if pat == 'decreasing':
+            T = np.sort(T)[::-1]
+        elif pat == 'increasing':
+            T = np.sort(T)
+        elif pat == 'cycle':
+            T = np.concatenate((np.sort(T), np.sort(T)[::-1][1:]))
+        g = np.exp(rng.uniform(np.log(20.0), np.log(4e3), len(T)))
+    mech = {'system': 'alzr', 'form': 'T_array', 'pattern': pat}
+    T0, g0 = np.array(T, copy=True), np.array(g, copy=True)
+    xa, xb = th.getInterfacialComposition(T, g, precPhase='AL3ZR')
+    xa = np.atleast_1d(np.asarray(xa, dtype=float))
+    R.check('c12.df_at_interface', np.array_equal(T, T0) and np.array_equal(g, g0), dict(mech, what='arguments modified'))
+    R.check('c12.df_at_interface', xa.shape == T0.shape, dict(mech, what='shape'), shape=xa.shape, expected=T0.shape)
+    if xa.shape != T0.shape:
+        return
+    nst = 0
+    for i in range(len(T0)):
+        xs, _ = th.getInterfacialComposition(float(T0[i]), float(g0[i]), precPhase='AL3ZR')
+        xs = float(np.squeeze(xs))
+        # same condition evaluated alone: same equilibrium calculation, so the same composition to solver precision
+        R.check('c12.df_at_interface', (xa[i] == -1) == (xs == -1) and abs(xa[i] - xs) <= 1e-9 + 1e-6 * abs(xs),
+                dict(mech, what='array entry differs from the single-condition call'), i=i, T=T0[i], g=g0[i], array=xa[i], single=xs)
+        if xa[i] != -1 and 0 < xa[i] < 0.2:
+            nst += 1
+            df = _df(th, [xa[i]], float(T0[i]))[0]
+            R.check('c12.df_at_interface', abs(df - g0[i]) <= 1.0 + 0.02 + 2e-5 * g0[i], dict(mech, what='DF at own temperature'),
+                    i=i, T=T0[i], g=g0[i], DF=df, x_alpha=xa[i], all_T=T0)
+            R.worst('c12_df_minus_g_minus_offset', abs(df - g0[i] - 1.0))
+    R.observe('multiT_conditions', len(T0))
+    R.observe('multiT_conditions_stable', nst)
+    R.info.update({'pattern': pat, 'n': len(T0), 'stable': nst})
+    R.set_nontrivial(nst >= 3)
 
 
 def _trajectory(case, R):
